@@ -18,7 +18,7 @@ REQUIRED_CLASSES = ["unref_nested_code", "has_nested"]
 
 
 def examples(tier):
-    return 4000 if tier == "quick" else 50000
+    return 4000 if tier == "quick" else 70000
 
 
 def wall_budget(tier):
